@@ -38,3 +38,13 @@ Theorem C09_v1_refuses_big_ids : forall cfg st m now, w_v2 cfg = false -> 255 < 
   forall st' r, stream_write cfg st m now = (st', r) -> st' = st /\ forall bs, r <> Ok bs.
 Proof. exact v1_refuses_big_ids. Qed.
 Print Assumptions C09_v1_refuses_big_ids.
+
+(* ---- tie by translation (regenerated from the source on every run) ---- the component id used
+   when none is configured, in Node.Initialize, frame.Writer and streamwriter.Writer *)
+From Coq Require Import ZArith.
+From GM Require Import SrcGomavlib SrcFrame SrcStreamwriter SrcNodeTie SrcFrameTie.
+Theorem C09_source_default_component :
+  (d_gomavlib_Node_Initialize_OutComponentID = 1 /\ d_frame_Writer_Initialize_OutComponentID = 1 /\
+   d_streamwriter_Writer_Initialize_ComponentID = 1)%Z.
+Proof. split; [exact src_node_defaults|]. split; apply src_frame_layout. Qed.
+Print Assumptions C09_source_default_component.
